@@ -201,9 +201,56 @@ Fails(st, e) ==
 (*   W.boolPval   TRUE: a boolean parameter value is parsed;  FALSE        *)
 (*                (pinned tree): typed by cimvalue() = bool(text), so      *)
 (*                FALSE arrives as TRUE                                    *)
+(*   W.nullNode   how CIMProperty.tocimxml() builds the children of        *)
+(*                VALUE.ARRAY: "fresh" = one new VALUE.NULL DOM node per   *)
+(*                NULL entry (the code);  "shared" = ONE VALUE.NULL node   *)
+(*                created before the loop and appended once per NULL entry *)
+(*                (a realistic "hoisting" refactoring): minidom's          *)
+(*                appendChild MOVES a node that already has a parent, so   *)
+(*                of k >= 2 NULL entries only the last one stays           *)
+(*   W.embEmpty   what TupleParser.parse_embeddedObject() makes of an      *)
+(*                EMPTY array of embedded objects: "list" = [] (the code:  *)
+(*                `if val is None: return None` after the list branch);    *)
+(*                "null" = None (`if not val: return None` first)          *)
 (***************************************************************************)
-WAsIs  == [x |-> AsIs, nullOk |-> FALSE, char16Kb |-> FALSE, boolPval |-> FALSE]
-WFixed == [x |-> CrFixed, nullOk |-> TRUE, char16Kb |-> TRUE, boolPval |-> TRUE]
+WAsIs  == [x |-> AsIs, nullOk |-> FALSE, char16Kb |-> FALSE, boolPval |-> FALSE,
+           nullNode |-> "fresh", embEmpty |-> "list"]
+WFixed == [x |-> CrFixed, nullOk |-> TRUE, char16Kb |-> TRUE, boolPval |-> TRUE,
+           nullNode |-> "fresh", embEmpty |-> "list"]
+
+(*----------- array encoder: DOM child list of VALUE.ARRAY ----------------*)
+(* NULL multiplicity of an array value - the case distinction the binding  *)
+(* covers systematically: no NULL entry, exactly one, two or more          *)
+(* (adjacent or separated by values; a NULL or a value at the end)         *)
+NullCount(v) == Cardinality(NullPos(v))
+NullMult(v) == IF NullCount(v) = 0 THEN "none"
+               ELSE IF NullCount(v) = 1 THEN "one" ELSE "many"
+
+(* xml.dom.minidom Node.appendChild(node): `if node.parentNode is not None:*)
+(* node.parentNode.removeChild(node)`, then the node is appended           *)
+DomAppend(ch, n) == SelectSeq(ch, LAMBDA c : c # n) \o <<n>>
+RECURSIVE DomChildren(_, _)
+DomChildren(ids, k) ==
+  IF k = 0 THEN <<>> ELSE DomAppend(DomChildren(ids, k - 1), ids[k])
+(* node identities of array_xml in CIMProperty.tocimxml(): the VALUE node  *)
+(* of entry k is created in iteration k (identity k); a NULL entry gets a  *)
+(* new node ("fresh") or the one node created before the loop (identity 0) *)
+NodeIds(val, nn) ==
+  [k \in DOMAIN val |-> IF val[k] = "~" /\ nn = "shared" THEN 0 ELSE k]
+(* the entries (indices into val) that VALUE.ARRAY ends up with, in order  *)
+ArrayKept(val, nn) ==
+  LET ch == DomChildren(NodeIds(val, nn), Len(val))
+      lastnull == IF NullPos(val) = {} THEN 0
+                  ELSE CHOOSE i \in NullPos(val) : \A j \in NullPos(val) : j <= i
+  IN [j \in DOMAIN ch |-> IF ch[j] = 0 THEN lastnull ELSE ch[j]]
+(* only CIMProperty.tocimxml() has this loop; arrays of embedded objects / *)
+(* references have child records whose paths carry the entry index - the   *)
+(* model leaves them alone (the builder machine makes no such arrays with  *)
+(* two NULL entries)                                                       *)
+KeptOf(el, W) ==
+  IF el.et = "prop" /\ el.arr = "a" /\ el.emb = "N" /\ el.type # "reference"
+  THEN ArrayKept(el.val, W.nullNode)
+  ELSE [k \in DOMAIN el.val |-> k]
 
 WireStr(cls, lvl, mode, W) ==
   LET r == NestRead(NestEnc(cls, <<>>, lvl, mode, W.x), lvl) IN
@@ -227,7 +274,12 @@ WireElem(el, mode, W) ==
       newvt == [k \in DOMAIN el.vt |->
                    IF el.vt[k] = "char16" /\ (~W.char16Kb \/ el.et = "pval")
                    THEN "str" ELSE el.vt[k]]
-  IN [n1 EXCEPT !.cls = newcls, !.val = newval, !.vt = newvt,
+      kept == KeptOf(el, W)
+      sel(q) == [j \in DOMAIN kept |-> q[kept[j]]]
+      embEmptyAsNull == /\ W.embEmpty = "null" /\ el.emb # "N" /\ el.arr = "a"
+                        /\ ~el.isnull /\ el.val = <<>>
+  IN [n1 EXCEPT !.cls = sel(newcls), !.val = sel(newval), !.vt = sel(newvt),
+                !.isnull = el.isnull \/ embEmptyAsNull,
                 !.type = IF el.et = "kb" /\ el.type = "char16" /\ ~W.char16Kb
                          THEN "string" ELSE el.type]
 
@@ -272,7 +324,8 @@ IsStrEntry(el, k) == el.type \in {"string", "char16"} /\ el.emb = "N" /\ el.val[
 Shape(el) == [el EXCEPT !.val = [k \in DOMAIN el.val |->
                                    IF IsStrEntry(el, k) THEN "s:" ELSE el.val[k]],
                         !.name = ""]
-AllW == {[x |-> xv, nullOk |-> a, char16Kb |-> b, boolPval |-> c] :
+AllW == {[x |-> xv, nullOk |-> a, char16Kb |-> b, boolPval |-> c,
+          nullNode |-> "fresh", embEmpty |-> "list"] :
             xv \in {AsIs, CrFixed}, a \in BOOLEAN, b \in BOOLEAN, c \in BOOLEAN}
 ObjDrift(e) ==
   IF e.enc # "ok" THEN {}
